@@ -5,8 +5,8 @@ CONSTANTS
   MaxDepth = 1
   Breaks <- BreaksQ
   Degs <- DegsQ
-  MaxNpts = 5
-  Acts = {"CvSplit"}
+  MaxNpts = 4
+  Acts = {"CvCopy", "CvFraction"}
   PtKinds = {"gen"}
   WtKinds = {"none", "gen"}
   ExtraNodes <- Extra0
@@ -17,7 +17,7 @@ CONSTANTS
   OtherMaxNpts = 4
 INVARIANT WellFormed
 PROPERTY FailedIsNoOp
-PROPERTY SplitRestricts
+
 ACTION_CONSTRAINT Log
 VIEW View
 CHECK_DEADLOCK FALSE
